@@ -485,12 +485,13 @@ type recOS struct {
 	// to the real operating system shows real data where the supplied OS gave none.
 	decline bool
 	tag     byte
-	in     *inst
-	v      *ros.VirtualOS
-	fs     memFS
-	stdin  *memFile
-	stdout *memFile
-	stderr *memFile
+	in      *inst
+	v       *ros.VirtualOS
+	fs      memFS
+	stdin   *memFile
+	stdout  *memFile
+	stderr  *memFile
+	cwd0    string // the working directory it starts in
 }
 
 var _ ros.OS = (*recOS)(nil)
@@ -515,7 +516,7 @@ func newRecOS(name string, tag byte) *recOS {
 			in.nodes[t(p)] = &node{data: []byte(c), mode: 0o644}
 		}
 	}
-	o := &recOS{in: in, fs: memFS{in}, tag: tag}
+	o := &recOS{in: in, fs: memFS{in}, tag: tag, cwd0: t(vCwd)}
 	o.stdin = &memFile{in: in, label: "<stdin>", n: &node{data: []byte(vStdin), mode: 0o444}, readable: true}
 	o.stdout = &memFile{in: in, label: "<stdout>", n: &node{mode: 0o222}, writable: true, app: true}
 	o.stderr = &memFile{in: in, label: "<stderr>", n: &node{mode: 0o222}, writable: true, app: true}
@@ -605,8 +606,8 @@ func (o *recOS) Getenv(key string) string {
 	}
 	return o.v.Getenv(key)
 }
-func (o *recOS) Getpid() int               { o.in.add("Getpid()"); return o.v.Getpid() }
-func (o *recOS) Getuid() int               { o.in.add("Getuid()"); return o.v.Getuid() }
+func (o *recOS) Getpid() int { o.in.add("Getpid()"); return o.v.Getpid() }
+func (o *recOS) Getuid() int { o.in.add("Getuid()"); return o.v.Getuid() }
 func (o *recOS) Getwd() (string, error) {
 	o.in.add("Getwd()")
 	if o.decline {
@@ -660,10 +661,10 @@ func (o *recOS) UserHomeDir() (string, error) {
 	}
 	return o.v.UserHomeDir()
 }
-func (o *recOS) Stdin() ros.File              { o.in.add("Stdin()"); return o.v.Stdin() }
-func (o *recOS) Stdout() ros.File             { o.in.add("Stdout()"); return o.v.Stdout() }
-func (o *recOS) Stderr() ros.File             { o.in.add("Stderr()"); return o.v.Stderr() }
-func (o *recOS) PathSeparator() rune          { o.in.add("PathSeparator()"); return o.v.PathSeparator() }
+func (o *recOS) Stdin() ros.File     { o.in.add("Stdin()"); return o.v.Stdin() }
+func (o *recOS) Stdout() ros.File    { o.in.add("Stdout()"); return o.v.Stdout() }
+func (o *recOS) Stderr() ros.File    { o.in.add("Stderr()"); return o.v.Stderr() }
+func (o *recOS) PathSeparator() rune { o.in.add("PathSeparator()"); return o.v.PathSeparator() }
 func (o *recOS) PathListSeparator() rune {
 	o.in.add("PathListSeparator()")
 	return o.v.PathListSeparator()
